@@ -30,6 +30,7 @@ sys.path.insert(0, os.path.dirname(os.path.dirname(os.path.abspath(__file__))))
 sys.path.insert(0, os.path.dirname(os.path.abspath(__file__)))
 sys.path.insert(0, os.path.join(os.path.dirname(os.path.dirname(os.path.abspath(__file__))), "impl"))
 import common  # noqa: E402
+import gen_c13  # noqa: E402
 import c13  # noqa: E402
 import c13_shared as sh  # noqa: E402
 
@@ -133,10 +134,12 @@ def gen_load(rng, quick, numpy):
         for obj in uobjs:
             for proto in range(6):
                 for comp in COMPRESSORS:
-                    if quick and proto in (0, 1) and comp not in (0, ["zlib", 3]):
+                    if quick and proto in (0, 1, 2) and comp not in (0, ["zlib", 3]):
+                        continue
+                    if quick and obj["n"] > 1000 and proto == 5 and comp != 0:
                         continue
                     cases.append({"kind": "load", "obj": obj, "compress": comp, "protocol": proto,
-                                  "trunc": {"unicode": 120 if quick else 1500}, "trailers": TRAILERS[:2],
+                                  "trunc": {"unicode": 60 if quick else 1500}, "trailers": TRAILERS[:2],
                                   "via": "path" if rng.random() < 0.1 else "bytesio"})
     for obj, trunc in objs:
         comps = list(COMPRESSORS)
@@ -178,7 +181,7 @@ def gen_memory(rng, quick):
                           "damage": [["trunc_auto", 80 if quick else 600]] + ext})
         # a result holding >= 64 KiB of non-ASCII text (read outside a pickle frame with Memory's default protocol)
         cases.append({"kind": "memory", "obj": {"kind": "utext", "n": 50000, "period": 37, "seed": 11},
-                      "compress": comp, "damage": [["trunc_u", 60 if quick else 600]] + ext})
+                      "compress": comp, "damage": [["trunc_u", 40, 160] if quick else ["trunc_u", 600, 2048]] + ext})
         cases.append({"kind": "memory", "obj": {"kind": "udict", "n": 10, "dense": True, "seed": 12},
                       "compress": comp, "damage": [["trunc_all"]] + ext})
     return cases
@@ -339,6 +342,7 @@ def run(ctx):
         "watchdog: SIGALRM in the child, deterministic spin detector in the zlib proxy, per-case deadline in the parent",
         "Memory half: sampled on real cache entries, not modelled here (M4/M5 belong to C02/C05)",
     ]
+    c13.regenerate(ctx)   # Gen/C13_Constants.v (Proofs/ZlibFileOps.v depends on it)
     proofs_ok = ctx.standard_proof_stage("C14", search=lambda: search_failing(ctx))
     viol, dis, hang = [], [], []
     stats = {"loads": 0, "outcomes": {}, "exc_types": {}, "memory_damages": 0, "recomputed": 0, "zfile_cases": 0,
